@@ -85,7 +85,62 @@ def r1(repo: Repo) -> RuleResult:
                 f = Finding("R1", BP, n.lineno, fn.name, src_of(n)[:120], f"the Python runtime writes `{target}` ({how}), which lives at module / class level: what one message (or one generated module) leaves there is seen by the next", witness="two generated modules in one process defining a message of the same name with different layouts", tag=f"py:{fn.name}:{target}")
                 f.part = "py"
                 res.bad(f)
-    res.inst(part="py", module_names=len(module_names), functions=n_fn)
+    # a default argument is evaluated once, when the function is defined: a mutable default (a list / dict /
+    # set display, or an object constructed in the default) is one object shared by every call that omits it
+    IMMUTABLE_CALLS = {"tuple", "frozenset", "int", "str", "bytes", "float", "bool", "object"}
+    n_def = 0
+    for fn in [n for n in ast.walk(tree) if isinstance(n, (ast.FunctionDef, ast.AsyncFunctionDef, ast.Lambda))]:
+        pos = fn.args.posonlyargs + fn.args.args
+        pairs = list(zip(pos[len(pos) - len(fn.args.defaults):], fn.args.defaults)) + [(a_, d_) for a_, d_ in zip(fn.args.kwonlyargs, fn.args.kw_defaults) if d_ is not None]
+        for a_, d_ in pairs:
+            n_def += 1
+            mutable = isinstance(d_, (ast.List, ast.Dict, ast.Set, ast.ListComp, ast.DictComp, ast.SetComp)) or (isinstance(d_, ast.Call) and not (isinstance(d_.func, ast.Name) and d_.func.id in IMMUTABLE_CALLS))
+            if mutable:
+                f = Finding("R1", BP, d_.lineno, getattr(fn, "name", "<lambda>"), f"{a_.arg}={src_of(d_)}", f"the default of parameter `{a_.arg}` is the mutable object `{src_of(d_)}`, created once when the function is defined: every call that omits the argument shares it, so what one message (or one encode / decode) leaves in it is seen by the next", witness="two messages, or the same message twice, processed in one interpreter", tag=f"py:{getattr(fn, 'name', 'lambda')}:default:{a_.arg}")
+                f.part = "py"
+                res.bad(f)
+    # dataclass fields of the runtime classes: a mutable class-level default is shared by all instances
+    for cd in [n for n in ast.walk(tree) if isinstance(n, ast.ClassDef)]:
+        for st in cd.body:
+            if isinstance(st, ast.AnnAssign) and st.value is not None and isinstance(st.value, (ast.List, ast.Dict, ast.Set)) and "ClassVar" not in src_of(st.annotation):
+                f = Finding("R1", BP, st.lineno, cd.name, src_of(st), "a mutable class-level default is shared by all instances of the runtime class", tag=f"py:{cd.name}:class-default:{src_of(st.target)}")
+                f.part = "py"
+                res.bad(f)
+    res.inst(part="py", module_names=len(module_names), functions=n_fn, defaults=n_def)
+    # the same for the functions the Python generator emits
+    try:
+        import re as _re
+
+        from .emit import class_emissions
+
+        n_gen = 0
+        for cname, lines in class_emissions(repo, "impls/py/renderer.py", "render", named=True).items():
+            for ln in lines:
+                t_ = ln.strip()
+                if not t_.startswith("def ") or not t_.rstrip().endswith(":"):
+                    continue
+                n_gen += 1
+                # holes become identifiers so that the signature parses
+                sig = _re.sub(r"\{[^{}]*\}", "HOLE", t_)
+                try:
+                    fn_g = ast.parse(sig + "\n    pass").body[0]
+                except SyntaxError:
+                    continue
+                if not isinstance(fn_g, ast.FunctionDef):
+                    continue
+                pos = fn_g.args.posonlyargs + fn_g.args.args
+                pairs = list(zip(pos[len(pos) - len(fn_g.args.defaults):], fn_g.args.defaults)) + [(a_, d_) for a_, d_ in zip(fn_g.args.kwonlyargs, fn_g.args.kw_defaults) if d_ is not None]
+                for a_, d_ in pairs:
+                    mutable = isinstance(d_, (ast.List, ast.Dict, ast.Set)) or (isinstance(d_, ast.Call) and not (isinstance(d_.func, ast.Name) and d_.func.id in IMMUTABLE_CALLS))
+                    if mutable:
+                        f = Finding("R1", "compiler/bitproto/renderer/impls/py/renderer.py", 0, cname, t_, f"the generated function takes `{a_.arg}={src_of(d_)}`: a mutable default is created once per class and shared by every call, so one encode / decode sees what the previous one left", witness="encode two different values of one message class in one interpreter: the second image is the OR of both", tag=f"py-gen:{cname}:default:{a_.arg}")
+                        f.part = "py-gen"
+                        res.bad(f)
+        res.inst(part="py-gen", generated_signatures=n_gen)
+        if n_gen == 0:
+            res.unsure("R1: no generated Python function signature found in the emissions")
+    except Inconclusive as e:
+        res.unsure(f"R1: generated Python: {e}")
     # ---- Go
     try:
         from .gomodel import get_go, go_src
